@@ -36,7 +36,7 @@ func VerifH_C03_int() {
 // quick / 2 thorough): no trap, same accept/reject, same string, same
 // remaining input.
 //
-//verif:harness prop=C03,C16 unwind=24 timeout=600 timeoutT=3000
+//verif:harness prop=C03,C16,C17 unwind=24 timeout=600 timeoutT=3000
 func VerifH_C03_str() {
 	b := vBytes(vRange(0, 12))
 	pre := vBytes(vRange(0, 1))
@@ -104,7 +104,7 @@ func VerifH_C03_field() {
 // of up to 3 (quick) / 5 (thorough) bytes: index arithmetic, insertion,
 // eviction, oversized entries, size updates that evict.
 //
-//verif:harness prop=C03 unwind=24 timeout=600 timeoutT=5000
+//verif:harness prop=C03,C01,C02 unwind=24 timeout=600 timeoutT=5000
 func VerifH_C03_table() {
 	hp, t := vC03State(vRange(1, 2))
 	vC03Field(hp, t, vPick(3, 5))
